@@ -25,6 +25,7 @@
 struct dnse_ns dnse_ns[DNSE_MAXNS];
 long dnse_spins;
 long dnse_stream_sockets;
+void (*dnse_udp_send_hook)(int ns, const void *pkt, int len);
 unsigned long dnse_rng_id_calls;
 static int rng_mode;
 
@@ -98,13 +99,16 @@ int __wrap_socket(int domain, int type, int protocol)
 
 ssize_t __wrap_sendto(int fd, const void *buf, size_t len, int flags, const struct sockaddr *to, socklen_t tolen)
 {
-	ssize_t r = __real_sendto(fd, buf, len, flags, to, tolen);
-	if (r >= 0 && to && to->sa_family == AF_INET && tolen >= sizeof(struct sockaddr_in)) {
+	int ns = -1;
+	if (to && to->sa_family == AF_INET && tolen >= sizeof(struct sockaddr_in)) {
 		const struct sockaddr_in *sin = (const struct sockaddr_in *)to;
 		if (sin->sin_addr.s_addr == htonl(0x7f000001))
 			for (int i = 0; i < DNSE_MAXNS; i++)
-				if (dnse_ns[i].port && ntohs(sin->sin_port) == dnse_ns[i].port) dnse_ns[i].sent++;
+				if (dnse_ns[i].port && ntohs(sin->sin_port) == dnse_ns[i].port) ns = i;
 	}
+	if (ns >= 0 && dnse_udp_send_hook) dnse_udp_send_hook(ns, buf, (int)len);
+	ssize_t r = __real_sendto(fd, buf, len, flags, to, tolen);
+	if (r >= 0 && ns >= 0) dnse_ns[ns].sent++;
 	return r;
 }
 
@@ -180,10 +184,17 @@ void dnse_ns_begin(void)
 
 void dnse_ns_end(void)
 {
+	/* first release every accepted connection (their fd numbers may be the ones a reopened listener must get back) */
 	for (int i = 0; i < DNSE_MAXNS; i++) {
 		struct dnse_ns *n = &dnse_ns[i];
+		int fd;
 		for (int c = 0; c < DNSE_MAXTCP; c++)
 			if (n->tcp[c].open) { hard_close(n->tcp[c].fd); n->tcp[c].open = 0; }
+		if (n->listening)
+			while ((fd = accept4(n->lis, NULL, NULL, SOCK_NONBLOCK | SOCK_CLOEXEC)) >= 0) hard_close(fd);
+	}
+	for (int i = 0; i < DNSE_MAXNS; i++) {
+		struct dnse_ns *n = &dnse_ns[i];
 		if (n->listening) {
 			int fd;
 			while ((fd = accept4(n->lis, NULL, NULL, SOCK_NONBLOCK | SOCK_CLOEXEC)) >= 0) hard_close(fd);
